@@ -367,12 +367,13 @@ func runCase(c Case, script bool) (fails []fail, obs string, info caseInfo) {
 // ---- enumeration ------------------------------------------------------------------
 
 type plan struct {
-	spec    *Spec
-	dims    [][][]Arg // per arity (min..max): alphabet of every position
-	counts  []int
-	nTuples int
-	extra   []Case
-	stride  int
+	spec     *Spec
+	dims     [][][]Arg // per arity (min..max): alphabet of every position
+	counts   []int
+	nTuples  int
+	nDerived int // tuples whose further string arguments are derived from the subject
+	extra    []Case
+	stride   int
 }
 
 func alphaArgs(name string) []Arg {
@@ -420,14 +421,15 @@ func buildPlan(s *Spec, scriptCap int) *plan {
 		p.counts = append(p.counts, n)
 		p.nTuples += n
 	}
+	full := p.dims[len(p.dims)-1]
+	nFull := p.counts[len(p.counts)-1]
+	p.addDerived()
 	p.stride = (p.nTuples + scriptCap - 1) / scriptCap
 	if p.stride < 1 {
 		p.stride = 1
 	}
 	// base tuples (at the maximal arity): the first and the last tuple for
 	// which the Go reference returns a non-error value
-	full := p.dims[len(p.dims)-1]
-	nFull := p.counts[len(p.counts)-1]
 	okAt := func(i int) bool {
 		args := decode(full, i)
 		vals := make([]interface{}, len(args))
@@ -485,6 +487,158 @@ func buildPlan(s *Spec, scriptCap int) *plan {
 		}
 	}
 	return p
+}
+
+// addDerived adds, for a function with a subject string (the first string
+// parameter over the general alphabet "S") and further string parameters, the
+// tuples in which those further arguments are RELATED to the subject (the
+// subject itself, its prefixes and suffixes, first/last character, reversal,
+// doubling, a permutation of its distinct characters - see derivedFrom):
+// independent strings almost never satisfy old == s, "suffix made of the
+// cutset's characters" and the like, which is what tells Trim / TrimRight /
+// TrimSuffix, Index / IndexAny, Replace with old == s, ... apart. One block
+// of tuples per (arity, non-empty subset of the further string positions,
+// subject); values already in the position's own alphabet are left out, so
+// no tuple is enumerated twice.
+func (p *plan) addDerived() {
+	s := p.spec
+	subj := -1
+	for i, q := range s.Ps {
+		if q.T == tString && q.A == "S" {
+			subj = i
+			break
+		}
+	}
+	if subj < 0 {
+		return
+	}
+	var later []int
+	for i := subj + 1; i < len(s.Ps); i++ {
+		if s.Ps[i].T == tString {
+			later = append(later, i)
+		}
+	}
+	if len(later) == 0 {
+		return
+	}
+	inAlpha := map[int]map[string]bool{}
+	for _, k := range later {
+		inAlpha[k] = map[string]bool{}
+		for _, l := range alpha(s.Ps[k].A) {
+			inAlpha[k][l] = true
+		}
+	}
+	for ar := s.minArity(); ar <= s.maxArity(); ar++ {
+		for mask := 1; mask < 1<<len(later); mask++ {
+			ok := true
+			for j, k := range later {
+				if mask&(1<<j) != 0 && k >= ar {
+					ok = false
+				}
+			}
+			if !ok {
+				continue
+			}
+			for _, sa := range alphaArgs(s.Ps[subj].A) {
+				sv := sa.Mk().(*tengo.String).Value
+				var d [][]Arg
+				n := 1
+				for i := 0; i < ar; i++ {
+					var a []Arg
+					switch {
+					case i == subj:
+						a = []Arg{sa}
+					case isDerivedPos(later, mask, i):
+						for _, l := range sL(derivedFrom(sv)...) {
+							if !inAlpha[i][l] {
+								a = append(a, mustResolve(l))
+							}
+						}
+					default:
+						a = alphaArgs(s.Ps[i].A)
+					}
+					d = append(d, a)
+					n *= len(a)
+				}
+				if n == 0 {
+					continue
+				}
+				p.dims = append(p.dims, d)
+				p.counts = append(p.counts, n)
+				p.nTuples += n
+				p.nDerived += n
+			}
+		}
+	}
+}
+
+func isDerivedPos(later []int, mask, pos int) bool {
+	for j, k := range later {
+		if k == pos && mask&(1<<j) != 0 {
+			return true
+		}
+	}
+	return false
+}
+
+// derivedFrom lists the strings related to s (deduplicated, in a fixed order).
+func derivedFrom(s string) []string {
+	var cuts []int // rune boundaries (byte offsets), incl. 0 and len(s)
+	for i := range s {
+		cuts = append(cuts, i)
+	}
+	cuts = append(cuts, len(s))
+	if len(s) == 0 {
+		cuts = []int{0}
+	}
+	var out []string
+	seen := map[string]bool{}
+	add := func(x string) {
+		if !seen[x] {
+			seen[x] = true
+			out = append(out, x)
+		}
+	}
+	add(s)
+	for _, c := range cuts {
+		add(s[:c]) // prefixes
+	}
+	for _, c := range cuts {
+		add(s[c:]) // suffixes
+	}
+	var chars []string
+	for i := 0; i+1 < len(cuts); i++ {
+		chars = append(chars, s[cuts[i]:cuts[i+1]])
+	}
+	if len(chars) > 0 {
+		add(chars[0])
+		add(chars[len(chars)-1])
+	}
+	rev := ""
+	for i := len(chars) - 1; i >= 0; i-- {
+		rev += chars[i]
+	}
+	add(rev)
+	add(s + s)
+	// a permutation of the distinct characters: last occurrence first
+	perm := ""
+	ds := map[string]bool{}
+	for i := len(chars) - 1; i >= 0; i-- {
+		if !ds[chars[i]] {
+			ds[chars[i]] = true
+			perm += chars[i]
+		}
+	}
+	add(perm)
+	// ... rotated by one, so that it is neither a prefix nor a suffix order
+	if n := len(ds); n > 2 {
+		first := ""
+		for i := len(chars) - 1; i >= 0 && first == ""; i-- {
+			first = chars[i]
+		}
+		add(perm[len(first):] + first)
+	}
+	return out
 }
 
 func (p *plan) size() int { return p.nTuples + len(p.extra) }
@@ -668,6 +822,12 @@ func main() {
 		alph[name] = len(alpha(name))
 	}
 	r.Set("alphabet_sizes", alph)
+	nDer := 0
+	for _, p := range plans {
+		nDer += p.nDerived
+	}
+	r.Set("tuples_with_arguments_derived_from_the_subject", nDer)
+	r.Set("derived_arguments", "for every function with a subject string (first string parameter over alphabet S) and further string parameters: each further string argument also ranges over {s, prefixes of s, suffixes of s, first char, last char, reverse(s), s+s, two permutations of the distinct characters of s}, singly and jointly")
 	r.Set("script_subset", fmt.Sprintf("every k-th argument tuple of a function, k = ceil(tuples/%d); all arity, wrong-type and constant cases; all enum cases", scriptCap))
 
 	r.Assume("the name -> Go function table is written from docs/stdlib-*.md (the godoc sentences quoted there identify the function); the module tables in /repo/stdlib were not used for it")
